@@ -147,6 +147,9 @@ class C19(Engine):
                 step = max(align, bpa)
                 offs = sorted(set(rng.below(n // step + 1) * step for _ in range(rng.range(1, 4))))
                 load["syms"] = [["s%d_%x" % (j, rng.below(1 << 16)), o] for j, o in enumerate(offs) if o < n]
+                if rng.chance(1, 3):
+                    # the other byte order than the CPU's default (.big_endian / .little_endian): the ELF header carries it
+                    load["endian"] = "little" if info["endian"] == "big" else "big"
             if rng.chance(1, 3) and cpu in SIM:
                 load["set_pc"] = (addr // bpa) + rng.below(8) * (2 if align >= 2 and bpa == 1 else 1)
             if fmt == "bin" and bpa != 1:
@@ -288,8 +291,14 @@ class C19(Engine):
                 from vlib import images
                 img = {"cpu": cpu, "segments": [(load["addr"], data)], "entry": None,
                        "exports": [(nm, load["addr"] + off) for nm, off in load["syms"]]}
+                text = images.render_image(img)
+                if load.get("endian"):
+                    first, rest = text.split("\n", 1)
+                    text = first + "\n.%s_endian\n" % load["endian"] + rest
+                    big = load["endian"] == "big"
+                    res.probe("elf_other_byte_order")
                 o = ex.call(build_request(MODE_ASM, ["naken_asm", "-type", "elf", "-o", "img.elf", "a.asm"],
-                                          {"/sim/w/a.asm": images.render_image(img).encode()}))
+                                          {"/sim/w/a.asm": text.encode()}))
                 res.absorb(o)
                 digests.append(o.digest())
                 elf = None
@@ -435,7 +444,8 @@ class C19(Engine):
                 console.append("print 0x%x-0x%x" % (start_b // bpa, (start_b + len(blob)) // bpa + 2))
                 expect.append(("print", (1, start_b, start_b + len(blob) + bpa)))
             elif op["op"] == "simstep":
-                if i not in sim_bytes:
+                if i not in sim_bytes or (load and load.get("endian")):
+                    # (instruction bytes come from an assembly in the CPU's default byte order: not for an image that declares the other)
                     continue
                 mark, mark_e = len(console), len(expect)
                 blob = sim_bytes[i]
@@ -519,7 +529,7 @@ class C19(Engine):
             hi_u = ((b + 1) << 8) // bpa
             console.append("print 0x%x-0x%x" % (lo_u, hi_u))
             expect.append(("sweep", (b << 8, (b + 1) << 8)))
-        if cpu == "msp430" and len(model_plan_addrs(plan, bpa)) < 20000:
+        if cpu == "msp430" and len(model_plan_addrs(plan, bpa)) < 20000 and not (load and load.get("endian")):
             # `disasm` without a range lists the whole image: every word it shows must be what is there,
             # and every byte that was written must be shown
             console.append("disasm")
